@@ -25,7 +25,7 @@ claim("C05", "bounded-exhaustive enumeration of keys x messages (every length 0.
       "All listed keys, every message length 0..=80, every cut point, accumulator values p-2..p+4 and the RFC 8439 A.3 inputs are executed on the real MAC.",
       "Trusts python big-integer arithmetic.", "DESIGN.md section 3 C05")
 claim("C06", "product enumeration of one-shot AEAD shapes plus explicit-state BFS of the incremental phase machine (graph mode to frontier-empty, fork tree) vs RFC 8439 model",
-      "Every (key length, AAD length, plaintext length) shape one-shot, and every partition of AAD (<=33/51 bytes) and data (<=130/195 bytes) across "
+      "Every (key length, AAD length, plaintext length) shape one-shot, and every partition of AAD (<=33/67 bytes) and data (<=130/260 bytes) across "
       "add_data/encrypt/encrypt_mut/decrypt/decrypt_mut for rounds 8/12/20, with the tag of a finalized clone checked in every state.",
       "Trusts the python AEAD model (RFC 8439 2.8.2 vector) and the ChaCha model.", "DESIGN.md section 3 C06")
 claim("C07", "bounded-exhaustive mutation enumeration (every tag/nonce/key bit, boundary bits of CT/AAD, truncation, extension, boundary moves, swaps) through three decrypt interfaces with computed verdicts",
